@@ -1541,6 +1541,7 @@ class Message(ABC):
                     if (
                         value != DATETIME_ZERO
                         or include_default_values
+                        or meta.optional
                         or self._include_default_value_for_oneof(
                             field_name=field_name, meta=meta
                         )
@@ -1550,6 +1551,7 @@ class Message(ABC):
                     if (
                         value != timedelta(0)
                         or include_default_values
+                        or meta.optional
                         or self._include_default_value_for_oneof(
                             field_name=field_name, meta=meta
                         )
